@@ -55,6 +55,18 @@ def pyBinLenMinus2 (x : Int) : Int :=
   | .ofNat n => (bitLen n : Int)
   | .negSucc n => (bitLen (n + 1) : Int) + 1
 
+/-- Python `len(bin(x))` -/
+def pyBinLen (x : Int) : Int := pyBinLenMinus2 x + 2
+
+/-- Python `abs(x)` -/
+def pyAbs (x : Int) : Int := ((Int.natAbs x : Nat) : Int)
+
+/-- Python `x.bit_length()`: digits of `|x|`, 0 for 0 -/
+def pyBitLength (x : Int) : Int := (bitLen (Int.natAbs x) : Int)
+
+/-- sentinel standing for Python's `None` in integer-typed parameters (e.g. an omitted bitwidth) -/
+def pyNone : Int := -1000000007
+
 /-- Python floor division for a positive divisor. -/
 def pyFloorDiv (x y : Int) : Int := Int.fdiv x y
 
